@@ -61,6 +61,9 @@ Record cfgview := mkcfg {
 
 (* ---- small helpers -------------------------------------------------------------------- *)
 
+(* list reversal in linear time (List.rev is quadratic once extracted); frev l = rev l *)
+Definition frev {A} (l : list A) : list A := rev_append l [].
+
 Definition mem (x : bytes) (l : list bytes) : bool := existsb (beq x) l.
 
 (* buffer_trim_lines: drop every trailing newline *)
@@ -100,7 +103,7 @@ Fixpoint last_lines_loop (n : nat) (r acc : bytes) : bytes :=
       end
   end.
 
-Definition last_lines (s : bytes) (n : nat) : bytes := last_lines_loop n (rev s) [].
+Definition last_lines (s : bytes) (n : nat) : bytes := last_lines_loop n (frev s) [].
 
 (* is_log_empty's loop: every line starts with '+' (an unfinished last line counts) *)
 Fixpoint only_trace (start : bool) (c : bytes) : bool :=
@@ -203,50 +206,56 @@ Definition regress_step_log (cfg : cfgview) (fs : files) (r : srow) : logres :=
       end
   end.
 
-(* "\n%s" on buffer_str(bf), or the bytes copied (Gen_Report.canvas_copies_bytes) *)
-Definition canvas_step_log (fs : files) (r : srow) : logres :=
+(* "\n%s" on buffer_str(bf) ([copies] = false), or the bytes copied with
+   buffer_puts ([copies] = true); which one report.c has is Gen_Report.canvas_copies_bytes *)
+Definition canvas_step_log_with (copies : bool) (fs : files) (r : srow) : logres :=
   match r_log r with
   | [] => LUnhandled
   | l =>
       match f_log fs l with
       | None => LError
-      | Some c => LHandled (10 :: (if canvas_copies_bytes then c else cstr c))
+      | Some c => LHandled (10 :: (if copies then c else cstr c))
       end
   end.
 
-(* "\n%.*s" of the last lines (or the bytes copied, Gen_Report.excerpt_copies_bytes),
-   then a newline when the excerpt does not end in one - tested on the buffer *)
-Definition excerpt (c : bytes) : bytes :=
+(* "\n%.*s" of the last lines ([copies] = false) or the bytes copied ([copies] =
+   true; Gen_Report.excerpt_copies_bytes), then a newline when the excerpt does
+   not end in one - tested on the buffer, not on what was printed *)
+Definition excerpt_with (copies : bool) (c : bytes) : bytes :=
   let t := last_lines c tail_lines in
-  10 :: (if excerpt_copies_bytes then t else cstr t) ++
-  match rev t with
+  10 :: (if copies then t else cstr t) ++
+  match frev t with
   | x :: _ => if x =? 10 then [] else [10]
   | [] => []
   end.
 
 (* the part of report_step_log after the mode specific handlers *)
-Definition generic_step_log (m : mode) (fs : files) (r : srow) : result bytes :=
+Definition generic_step_log_with (ce : bool) (m : mode) (fs : files) (r : srow) : result bytes :=
   if beq (r_name r) name_cvs then ROk (fst (cvs_log m fs))      (* report_cvs_log(r) < 0 never holds *)
   else match r_log r with
        | [] => ROk []
        | l => match f_log fs l with
               | None => RErr
-              | Some c => ROk (excerpt c)
+              | Some c => ROk (excerpt_with ce c)
               end
        end.
 
-Definition step_log (m : mode) (cfg : cfgview) (fs : files) (r : srow) : result bytes :=
+Definition step_log_with (ce cc : bool) (m : mode) (cfg : cfgview) (fs : files) (r : srow) : result bytes :=
   let rv := match m with
             | Ports => ports_step_log fs r
             | Regress => regress_step_log cfg fs r
-            | Canvas => canvas_step_log fs r
+            | Canvas => canvas_step_log_with cc fs r
             | _ => LUnhandled
             end in
   match rv with
   | LError => RErr
   | LHandled b => ROk b
-  | LUnhandled => generic_step_log m fs r
+  | LUnhandled => generic_step_log_with ce m fs r
   end.
+
+(* report_step_log as report.c has it now *)
+Definition step_log : mode -> cfgview -> files -> srow -> result bytes :=
+  step_log_with excerpt_copies_bytes canvas_copies_bytes.
 
 (* ---- sections --------------------------------------------------------------------------------- *)
 
@@ -301,7 +310,7 @@ Fixpoint last_status (rrows : list srow) : bytes :=
 Definition counts_failures (m : mode) : bool := existsb (mode_eqb m) count_status_modes.
 
 Definition report_status (m : mode) (rows : list srow) : bytes :=
-  if counts_failures m then count_status rows else last_status (rev rows).
+  if counts_failures m then count_status rows else last_status (frev rows).
 
 (* ---- subject, stats, comment -------------------------------------------------------------------- *)
 
